@@ -72,6 +72,7 @@ NAME_FAMILIES = [
     ['north/Report.csv', 'south/Report.csv', 'Report.csv'],  # same base name in different directories, capitals
     ['out1.log', 'OUT1.log', 'out1.LOG'],                    # differ in case only
     ['README', 'data/README', 'out.tar.dat'],
+    ['../work.log', '../work-extra.txt', 'out0.txt'],        # beside the working directory ("work"), sharing its prefix
 ]
 
 
@@ -160,7 +161,7 @@ def _body(spec):
         out.append('mkdir -p ' + ' '.join(shlex.quote(d) for d in dirs))
     for f in spec['files']:
         if f.get('missing'):
-            out.append('rm -f ' + shlex.quote(f['name']))
+            out.append(': # (this run does not produce %s)' % f['name'].replace("'", ''))
         elif f['kind'] == 'text':
             out.append(_printf_text(f['lines']) + ' > ' + shlex.quote(f['name']))
         else:
